@@ -89,8 +89,9 @@ structure Cfg where
   size : Nat          -- bits of the process-wide filter
   cap : Nat           -- its `expected_items`
   trust : Bool        -- `dedup_trust_negative_cache`
-  markOnRaise : Bool := false   -- false: the code as found; true: with proposed_fixes/F7.diff (`_handle_message` marks
-                                -- the filter when the handler raises, because the handler may already have committed)
+  markOnRaise : Bool := true    -- true: the code as it is (`_handle_message` marks the filter when the handler raises,
+                                -- because the handler may already have committed — repair of finding F7);
+                                -- false: LEGACY behaviour before that repair, kept only for the labelled legacy fact
   deriving Repr
 
 /-- what the handler does with the delivered message -/
@@ -107,16 +108,30 @@ inductive Op where
   | restart                                        -- new process: fresh filter, `QueueProcessor.__init__` hydrates
   | rotate                                         -- `reset()` + `_hydrate_deduplicator()`
   | peerMarks (id : Id)                            -- another worker inserts into processed_messages
-  | cleanup (ids : List Id)                        -- retention sweep deletes these processed ids
+  | cleanup (ids : List Id)                        -- these processed ids are deleted by some other means (manual purge)
+  | tick (n : Nat)                                 -- time passes (unit: half an hour)
+  | sweep (maxAge : Nat)                           -- `cleanup_old_processed_messages(max_age_hours = maxAge / 2)`:
+                                                   -- deletes the records strictly older than `maxAge`
   deriving Repr
 
 structure State where
   bloom : Bloom
   store : List Id                 -- processed_messages (a set: INSERT OR IGNORE)
   runs : List Id                  -- ghost: one entry per handler invocation, newest first
+  clock : Nat                     -- now (half-hours)
+  stamp : List (Id × Nat)         -- `processed_at` of every record ever inserted, newest first (lookup = current record)
   deriving Repr
 
 def storeAdd (st : List Id) (id : Id) : List Id := if st.contains id then st else st ++ [id]
+
+/-- `INSERT OR IGNORE ... processed_at = now`: a new record is stamped, an existing one keeps its stamp -/
+def stampAdd (s : State) (id : Id) : List (Id × Nat) := if s.store.contains id then s.stamp else (id, s.clock) :: s.stamp
+
+/-- `processed_at < now - max_age` for the current record of `id` -/
+def expired (s : State) (maxAge : Nat) (id : Id) : Bool :=
+  match s.stamp.lookup id with
+  | some t => decide (t + maxAge < s.clock)
+  | none => false
 
 /-- `_hydrate_deduplicator`: asks for `cap + 1` ids; more than `cap` ⇒ the filter stays as it is -/
 def hydrateFromStore (pos : Id → List Nat) (cap : Nat) (store : List Id) (b : Bloom) : Bloom :=
@@ -125,7 +140,7 @@ def hydrateFromStore (pos : Id → List Nat) (cap : Nat) (store : List Id) (b : 
 def rotateBloom (pos : Id → List Nat) (cap : Nat) (store : List Id) (b : Bloom) : Bloom :=
   hydrateFromStore pos cap store b.reset
 
-def init (c : Cfg) : State := { bloom := Bloom.fresh c.size, store := [], runs := [] }
+def init (c : Cfg) : State := { bloom := Bloom.fresh c.size, store := [], runs := [], clock := 0, stamp := [] }
 
 /-- does `_handle_message` consult `is_message_processed`? -/
 def consultsStore (pos : Id → List Nat) (c : Cfg) (b : Bloom) (id : Id) : Bool :=
@@ -155,17 +170,19 @@ def handleMsg (pos : Id → List Nat) (c : Cfg) (s : State) (id : Id) (o : Outco
   let runs := id :: s.runs
   match o with
   | .raiseBefore => ({ s with bloom := onRaise pos c b1 id, runs := runs }, .ran)
-  | .commitRaise => ({ bloom := onRaise pos c b1 id, store := storeAdd s.store id, runs := runs }, .ran)
+  | .commitRaise => ({ s with bloom := onRaise pos c b1 id, store := storeAdd s.store id, runs := runs, stamp := stampAdd s id }, .ran)
   | .commitReturn | .plainReturn =>
     -- handler returned: `dedup.mark_seen` + `store.mark_message_processed`
-    ({ bloom := b1.markSeen pos id, store := storeAdd s.store id, runs := runs }, .ran)
+    ({ s with bloom := b1.markSeen pos id, store := storeAdd s.store id, runs := runs, stamp := stampAdd s id }, .ran)
 
 def step (pos : Id → List Nat) (c : Cfg) (s : State) : Op → State × Obs
   | .handle id o aged => handleMsg pos c (ageState s aged) id o
   | .restart => ({ s with bloom := hydrateFromStore pos c.cap s.store (Bloom.fresh c.size) }, .other)
   | .rotate => ({ s with bloom := rotateBloom pos c.cap s.store s.bloom }, .other)
-  | .peerMarks id => ({ s with store := storeAdd s.store id }, .other)
+  | .peerMarks id => ({ s with store := storeAdd s.store id, stamp := stampAdd s id }, .other)
   | .cleanup ids => ({ s with store := s.store.filter (fun x => !ids.contains x) }, .other)
+  | .tick n => ({ s with clock := s.clock + n }, .other)
+  | .sweep maxAge => ({ s with store := s.store.filter (fun x => !expired s maxAge x) }, .other)
 
 def run (pos : Id → List Nat) (c : Cfg) (s : State) : List Op → State
   | [] => s
@@ -179,7 +196,8 @@ def runCount (s : State) (id : Id) : Nat := (s.runs.filter (· == id)).length
   `dedup bloom size=<bits> pos=<id:p.p.p,id:p.p,...|-> ops=<op;op;...>`
        ops: `m:<id>` mark_seen, `q:<id>` maybe_seen, `hyd:<id,id,..|->` hydrate, `reset`, `f` (set bits / should_reset)
   `dedup proc size=<bits> cap=<n> trust=<0|1> mor=<0|1> pos=<...> ops=<op;op;...>`   (`mor`: Cfg.markOnRaise)
-       ops: `h:<id>:<cr|cx|rx|pr>[:a]`, `restart`, `rot`, `peer:<id>`, `clean:<id,id,..>`
+       ops: `h:<id>:<cr|cx|rx|pr>[:a]`, `restart`, `rot`, `peer:<id>`, `clean:<id,id,..>`, `tick:<n>`, `sweep:<maxAge>`
+       (time unit: half an hour)
 -/
 
 def posTable (tbl : List (Id × List Nat)) (id : Id) : List Nat :=
@@ -239,6 +257,8 @@ def parseOp (known : Id → Bool) (s : String) : Option Op :=
   | ["rot"] => some .rotate
   | ["peer", i] => do let i ← Parse.nat? i; if known i then pure (.peerMarks i) else none
   | ["clean", l] => (Parse.natList? l).map .cleanup
+  | ["tick", n] => (Parse.nat? n).map .tick
+  | ["sweep", n] => (Parse.nat? n).map .sweep
   | _ => none
 
 def showStep (pos : Id → List Nat) (s' : State) (o : Obs) (op : Op) : String :=
